@@ -1119,7 +1119,7 @@ async fn load_targets(
             path,
             url: metadata_base_url.clone(),
         })?;
-    let (max_targets_size, specifier) = match targets_meta.length {
+    let (targets_size, specifier) = match targets_meta.length {
         Some(length) => (length, "snapshot.json"),
         None => (max_targets_size, "max_targets_size parameter"),
     };
@@ -1127,13 +1127,13 @@ async fn load_targets(
         fetch_sha256(
             transport,
             targets_url.clone(),
-            max_targets_size,
+            targets_size,
             specifier,
             &hashes.sha256,
         )
         .await?
     } else {
-        fetch_max_size(transport, targets_url.clone(), max_targets_size, specifier).await?
+        fetch_max_size(transport, targets_url.clone(), targets_size, specifier).await?
     };
     let data = stream
         .into_vec()
@@ -1260,10 +1260,25 @@ async fn load_delegations(
                 path: path.clone(),
                 url: metadata_base_url.clone(),
             })?;
-        let specifier = "max_targets_size parameter";
+        // The size and hashes of a delegated role are those listed for that role in the snapshot,
+        // exactly as for the top-level targets role.
+        let (role_size, specifier) = match role_meta.length {
+            Some(length) => (length, "snapshot.json"),
+            None => (max_targets_size, "max_targets_size parameter"),
+        };
         // load the role json file
-        let stream =
-            fetch_max_size(transport, role_url.clone(), max_targets_size, specifier).await?;
+        let stream = if let Some(hashes) = &role_meta.hashes {
+            fetch_sha256(
+                transport,
+                role_url.clone(),
+                role_size,
+                specifier,
+                &hashes.sha256,
+            )
+            .await?
+        } else {
+            fetch_max_size(transport, role_url.clone(), role_size, specifier).await?
+        };
         let data = stream
             .into_vec()
             .await
